@@ -365,15 +365,36 @@ func cmdNameKnown(p *core.Path, isCmd func(ssa.Value) bool, names ...string) (is
 			}
 			continue
 		}
-		call, ok := core.Unwrap(p.Resolve(f.Cond)).(*ssa.Call)
+		// the tested value as the path resolves it, negations pushed into the outcome: a name test may have been
+		// computed earlier and travelled as a boolean (a parameter of a helper, a field of a verdict record) to the
+		// place where it is branched on (`drop = bypass && !isBracket`)
+		tv, val := p.Resolve(f.Cond), f.Val
+		for depth := 0; depth < 6; depth++ {
+			u, isNot := tv.(*ssa.UnOp)
+			if !isNot || u.Op != token.NOT {
+				break
+			}
+			tv, val = p.Resolve(u.X), !val
+		}
+		if bo, isB := tv.(*ssa.BinOp); isB && (bo.Op == token.EQL || bo.Op == token.NEQ) {
+			x, y := p.Resolve(bo.X), p.Resolve(bo.Y)
+			equal := (bo.Op == token.EQL) == val
+			if s, isS := core.ConstString(core.Unwrap(y)); isS && isCmd(x) {
+				note(s, equal)
+			} else if s, isS := core.ConstString(core.Unwrap(x)); isS && isCmd(y) {
+				note(s, equal)
+			}
+			continue
+		}
+		call, ok := core.Unwrap(tv).(*ssa.Call)
 		if !ok || core.ResolveCall(call).Name != "strings.EqualFold" || len(call.Call.Args) != 2 {
 			continue
 		}
 		a, b := p.Resolve(call.Call.Args[0]), p.Resolve(call.Call.Args[1])
 		if s, isS := core.ConstString(core.Unwrap(b)); isS && isCmd(a) {
-			note(s, f.Val)
+			note(s, val)
 		} else if s, isS := core.ConstString(core.Unwrap(a)); isS && isCmd(b) {
-			note(s, f.Val)
+			note(s, val)
 		}
 	}
 	return
@@ -506,6 +527,11 @@ func ruleBypassKeepsBrackets(w *core.World, r *core.Report) {
 		}
 		if flagPos == token.NoPos {
 			flagPos = lastDecisionPos(p)
+		}
+		if os.Getenv("GC_DEBUG") == "R01.11" {
+			for _, fct := range p.Conds {
+				fmt.Fprintf(os.Stderr, "  fact %v = %v | res=%v | resolved=%v\n", fct.Cond, fct.Val, fct.Res, p.Resolve(fct.Cond))
+			}
 		}
 		bad, badPos = fmt.Sprintf("a decoded command is dropped because the database-filter flag (set by the last SELECT of the stream) is set, on a loop path that has not ruled out that the command is %s: the brackets name no database, and a source transaction that SELECTs a filtered database between its MULTI and its EXEC (or leaves one) reaches the sender with one bracket only; the sender's transaction state can only be left at an EXEC, so the target connection stays inside an open MULTI and every later write is merely QUEUED (plain mode), or the next batch nests a MULTI and the replay aborts (transactional mode)", strings.Join(open, " or ")), flagPos
 	})
